@@ -19,13 +19,19 @@
   is the explicit phase `refused`, a parser access outside its buffer the phase `fault`.
 
   Mirrors, as far as buffer positions and indices are concerned:
-  MHD_connection_handle_read, MHD_connection_handle_idle (INIT … HEADERS_RECEIVED),
+  MHD_connection_handle_read, MHD_connection_handle_idle (INIT … FULL_REQ_RECEIVED, then the
+  reply is taken as sent: connection_switch_from_recv_to_send + connection_reset),
   MHD_connection_update_event_loop_info + check_and_grow_read_buffer_space,
-  get_request_line, switch_to_rq_headers_processing, get_req_headers.
-  What the parsers *decide* is taken from their models.
+  get_request_line, switch_to_rq_headers_processing, get_req_headers (headers and footers),
+  process_request_body (identity and chunked; the chunk decoder is C03's `chunkAct`).
+  What the parsers *decide* is taken from their models; what `parse_connection_headers`
+  decides about the body, whether the connection is kept alive and how many bytes the
+  application takes per upload call are parameters (`Cfg`): the theorems hold for every
+  choice, the driver instantiates them with C03's `decideBody`.
 -/
 import Mhd.Model.ConnMem
 import Mhd.Model.ReqField
+import Mhd.Model.Chunked
 
 namespace Mhd.ConnRead
 open Mhd.ConnMem Mhd.Req Mhd.Gen
@@ -41,19 +47,75 @@ inductive ErrKind where
   | closed
   deriving Repr, DecidableEq
 
+/-- what `parse_connection_headers` decides about the request body -/
+inductive Framing where
+  /-- not modelled further (a `Cookie:` header: `parse_cookie_header` allocates in the pool):
+      the model stops in HEADERS_RECEIVED -/
+  | stop
+  | none
+  | len (n : Nat)
+  | chunked
+  | reject (code : Nat)
+  deriving Repr, DecidableEq
+
+/-- the parts of the request the later phases need: `rq.method`, `rq.version`, the element list -/
+structure Rq where
+  method : Nat
+  version : Nat
+  elems : List Elem
+  deriving Repr, DecidableEq
+
+/-- MHD_CONNECTION_BODY_RECEIVING -/
+structure Body where
+  /-- arena prefix up to the end of the received data -/
+  buf : Bytes
+  /-- `read_buffer` (does not move while the body is received) -/
+  rb : Nat
+  rq : Rq
+  /-- `rq.have_chunked_upload` -/
+  chunked : Bool
+  /-- `rq.remaining_upload_size` (chunked: 1 = unknown, 0 = the last chunk was seen) -/
+  remaining : Nat
+  /-- `rq.current_chunk_size`, `rq.current_chunk_offset` -/
+  cur : Nat
+  off : Nat
+  /-- `rq.some_payload_processed` -/
+  processed : Bool
+  /-- number of calls of the access handler so far (index into the take pattern) -/
+  calls : Nat
+  /-- MHD_EVENT_LOOP_INFO_READ is set (`false`: MHD_EVENT_LOOP_INFO_PROCESS only) -/
+  evRead : Bool
+  deriving Repr, DecidableEq
+
 inductive Phase where
   /-- MHD_CONNECTION_INIT / REQ_LINE_RECEIVING -/
   | reqLine (s : RL)
   /-- MHD_CONNECTION_REQ_HEADERS_RECEIVING; `fieldStart` = `rq.field_lines.start` -/
   | headers (s : HS) (fieldStart : Nat)
   /-- MHD_CONNECTION_HEADERS_RECEIVED -/
-  | headersDone (h : Headers)
+  | headersDone (h : Headers) (rq : Rq)
+  /-- MHD_CONNECTION_BODY_RECEIVING -/
+  | body (b : Body)
+  /-- MHD_CONNECTION_FOOTERS_RECEIVING -/
+  | footers (s : HS) (rq : Rq)
+  /-- MHD_CONNECTION_FULL_REQ_RECEIVED, the access handler had its final call; `buf`/`rb`: the
+      arena prefix and `read_buffer` (read-ahead of the next request behind it) -/
+  | reqDone (buf : Bytes) (rb : Nat) (rq : Rq)
   | error (k : ErrKind)
   /-- a parser accessed a byte outside the buffer it was given -/
   | fault (f : Fault)
   /-- the buffer layer refused an operation (`badOp`) -/
   | refused (site : Nat)
   deriving Repr
+
+/-- the decisions that are not the business of the buffer positions -/
+structure Cfg where
+  /-- `parse_connection_headers`: the framing of the body (C03: `decideBody`) -/
+  frame : Bytes → Rq → Framing
+  /-- `keepalive_possible` etc.: the connection is re-used after the reply -/
+  keepAlive : Bytes → Rq → Bool
+  /-- the access handler: call index, bytes offered ↦ bytes taken (clamped to the offer) -/
+  take : Nat → Nat → Nat
 
 structure CR where
   cm : CM
@@ -115,7 +177,10 @@ def Phase.extend (ph : Phase) (e : Bytes) : Phase :=
   match ph with
   | .reqLine s => .reqLine (rlExtend s e)
   | .headers s fs => .headers (hsExtend s e) fs
-  | .headersDone h => .headersDone { h with buf := h.buf ++ e }
+  | .headersDone h rq => .headersDone { h with buf := h.buf ++ e } rq
+  | .body b => .body { b with buf := b.buf ++ e }
+  | .footers s n => .footers (hsExtend s e) n
+  | .reqDone buf rb rq => .reqDone (buf ++ e) rb rq
   | ph => ph
 
 /-- `MHD_connection_handle_read`: `e` (at most `space` bytes) is stored at
@@ -163,21 +228,35 @@ def idleReqLine (x : CR) (s : RL) : CR :=
 
 /-! ### field lines -/
 
-/-- one iteration of the `do … while` loop of `get_req_headers (c, false)` (= one `hsStep`);
-    `k` continues with the next iteration -/
-def hdrBody (lvl : Int) (fs : Nat) (k : CM → HS → CR) (c : CM) (s0 : HS) : CR :=
+/-- the phase while field lines (`ft = none`) / footer lines (`ft = some rq`, `rq` = the request so far) are received -/
+def linesPhase (ft : Option Rq) (s : HS) (fs : Nat) : Phase :=
+  match ft with
+  | none => .headers s fs
+  | some n => .footers s n
+
+/-- one iteration of the `do … while` loop of `get_req_headers` (= one `hsStep`); `k` continues
+    with the next iteration.  `ft = some rq`: `process_footers` — the end of the section
+    neither computes `header_size` nor moves the window back, the request is complete. -/
+def hdrBody (lvl : Int) (fs : Nat) (ft : Option Rq) (k : CM → HS → CR) (c : CM) (s0 : HS) : CR :=
   match hsStep (FLFlags.ofLevel lvl) fs s0 with
-  | .needMore => { cm := writeBack c s0.buf, lvl := lvl, phase := .headers s0 fs }
+  | .needMore => { cm := writeBack c s0.buf, lvl := lvl, phase := linesPhase ft s0 fs }
   | .fault f => { cm := c, lvl := lvl, phase := .fault f }
-  | .done (.err _) => errorOut { cm := c, lvl := lvl, phase := .headers s0 fs } (.reply Http.codeBadRequest)
+  | .done (.err _) => errorOut { cm := c, lvl := lvl, phase := linesPhase ft s0 fs } (.reply Http.codeBadRequest)
   | .done (.ok h) =>
-    -- the empty line is consumed, then the window is moved back over the header tail
+    -- the empty line is consumed …
     match consumeTo c (h.rb + h.shifted) with
     | none => { cm := c, lvl := lvl, phase := .refused 21 }
     | some c1 =>
-      match op c1 (.shiftBack h.shifted) with
-      | none => { cm := c1, lvl := lvl, phase := .refused 22 }
-      | some c2 => { cm := writeBack c2 h.buf, lvl := lvl, phase := .headersDone h }
+      match ft with
+      | none =>
+        -- … then the window is moved back over the header tail
+        match op c1 (.shiftBack h.shifted) with
+        | none => { cm := c1, lvl := lvl, phase := .refused 22 }
+        | some c2 => { cm := writeBack c2 h.buf, lvl := lvl,
+                       phase := .headersDone h ⟨s0.method, s0.version, h.elems⟩ }
+      | some rq =>
+        -- MHD_CONNECTION_FOOTERS_RECEIVED → FULL_REQ_RECEIVED: the final call of the access handler
+        { cm := writeBack c1 s0.buf, lvl := lvl, phase := .reqDone s0.buf (h.rb + h.shifted) rq }
   | .advance s1 =>
     match consumeTo c s1.rb with
     | none => { cm := c, lvl := lvl, phase := .refused 23 }
@@ -186,67 +265,243 @@ def hdrBody (lvl : Int) (fs : Nat) (k : CM → HS → CR) (c : CM) (s0 : HS) : C
         -- a field line was completed: MHD_set_connection_value_n_nocheck_
         match step c1 (.alloc Mhd.Gen.ConnMem.reqHeaderSize) with
         | (c2, .ptr (some _)) => k c2 s1
-        | (c2, _) => errorOut { cm := c2, lvl := lvl, phase := .headers s1 fs } .noSpace
+        | (c2, _) => errorOut { cm := c2, lvl := lvl, phase := linesPhase ft s1 fs } .noSpace
       else k c1 s1
 
-/-- `get_req_headers (c, false)`; `read_buffer_size` is taken from the buffer layer before
-    every step (allocations may have shrunk it) -/
-def hdrLoop (lvl : Int) (fs : Nat) : Nat → CM → HS → CR
+/-- `get_req_headers`; `read_buffer_size` is taken from the buffer layer before every step
+    (allocations may have shrunk it) -/
+def hdrLoop (lvl : Int) (fs : Nat) (ft : Option Rq) : Nat → CM → HS → CR
   | 0, c, _ => { cm := c, lvl := lvl, phase := .refused 20 }
-  | n + 1, c, s => hdrBody lvl fs (hdrLoop lvl fs n) c { s with rbSize := c.rbSize }
+  | n + 1, c, s => hdrBody lvl fs ft (hdrLoop lvl fs ft n) c { s with rbSize := c.rbSize }
 
 def idleHeaders (x : CR) (s : HS) (fs : Nat) : CR :=
-  hdrLoop x.lvl fs ((hsScanner (FLFlags.ofLevel x.lvl) fs).measure s + 1) x.cm s
+  hdrLoop x.lvl fs none ((hsScanner (FLFlags.ofLevel x.lvl) fs).measure s + 1) x.cm s
+
+def idleFooters (x : CR) (s : HS) (rq : Rq) : CR :=
+  hdrLoop x.lvl 0 (some rq) ((hsScanner (FLFlags.ofLevel x.lvl) 0).measure s + 1) x.cm s
+
+/-! ### request body -/
+
+/-- the loop variables of `process_request_body` -/
+structure BL where
+  cur : Nat
+  off : Nat
+  remaining : Nat
+  calls : Nat
+  processed : Bool
+  /-- `buffer_head - read_buffer` -/
+  head : Nat
+  deriving Repr, DecidableEq
+
+inductive BLRes where
+  | ok (s : BL)
+  /-- `transmit_error_response_static` -/
+  | err (status : Nat)
+  /-- the decoder claimed more bytes than are available -/
+  | overrun (site : Nat)
+  deriving Repr, DecidableEq
+
+/-- the `do … while (instant_retry)` loop of `process_request_body` on the window contents `w`
+    (`available = |w| − head`); one chunk-decoder action (`Mhd.Framing.chunkAct`) per round -/
+def bodyLoop (lvl : Int) (take : Nat → Nat → Nat) (chunked : Bool) (w : List UInt8) : Nat → BL → BLRes
+  | 0, s => .ok s
+  | f + 1, s =>
+    let b := w.drop s.head
+    if b.isEmpty then .ok s
+    else if chunked then
+      match Mhd.Framing.chunkAct lvl s.cur s.off b with
+      | .needMore => .ok s
+      | .term n =>
+        if n ≤ b.length then bodyLoop lvl take chunked w f { s with head := s.head + n, cur := 0, off := 0 }
+        else .overrun 1
+      | .line len size =>
+        if len ≤ b.length then
+          if size = 0 then .ok { s with head := s.head + len, cur := 0, off := 0, remaining := 0 }
+          else bodyLoop lvl take chunked w f { s with head := s.head + len, cur := size, off := 0 }
+        else .overrun 2
+      | .data n =>
+        if n ≤ b.length then
+          let t := min n (take s.calls n)
+          let s' := { s with head := s.head + t, off := s.off + t, calls := s.calls + 1, processed := t != 0 }
+          if t < n then .ok s' else bodyLoop lvl take chunked w f s'
+        else .overrun 3
+      | .err status => .err status
+    else
+      let n := min s.remaining b.length
+      let t := min n (take s.calls n)
+      .ok { s with head := s.head + t, remaining := s.remaining - t, calls := s.calls + 1, processed := t != 0 }
+
+/-- `process_request_body`: the loop, then the memmove of the unprocessed bytes to the window start -/
+def processBody (cfg : Cfg) (x : CR) (b : Body) : CR :=
+  let w := (b.buf.extract b.rb b.buf.size).toList
+  match bodyLoop x.lvl cfg.take b.chunked w (w.length + 1)
+      ⟨b.cur, b.off, b.remaining, b.calls, b.processed, 0⟩ with
+  | .overrun n => { x with phase := .fault (.read (900 + n) b.rb) }
+  | .err status => errorOut x (.reply status)
+  | .ok s =>
+    match op x.cm (.bodyDrop s.head) with
+    | none => { x with phase := .refused 40 }
+    | some c1 =>
+      let buf' := b.buf.extract 0 b.rb ++ b.buf.extract (b.rb + s.head) b.buf.size
+      { x with cm := writeBack c1 buf',
+               phase := .body { b with buf := buf', cur := s.cur, off := s.off, remaining := s.remaining,
+                                       calls := s.calls, processed := s.processed } }
+
+/-- `reset_rq_header_processing_state`, state MHD_CONNECTION_FOOTERS_RECEIVING.  The element list starts
+    empty here: for footers it only serves to notice a completed line (one allocation each); the
+    end-of-section block that looks at the list tail is not executed for footers. -/
+def footersStart (b : Body) (rbSize : Nat) : HS :=
+  { buf := b.buf, rb := b.rb, rbSize := rbSize, elems := [], method := b.rq.method, version := b.rq.version }
+
+/-- the case MHD_CONNECTION_BODY_RECEIVING (and BODY_RECEIVED) of the idle loop -/
+def idleBody (cfg : Cfg) (x : CR) (b : Body) : CR :=
+  let x1 := if x.cm.rbOff ≠ 0 then processBody cfg x b else x
+  match x1.phase with
+  | .body b1 =>
+    if b1.remaining = 0 then
+      if b1.chunked then { x1 with phase := .footers (footersStart b1 x1.cm.rbSize) b1.rq }
+      else { x1 with phase := .reqDone b1.buf b1.rb b1.rq }
+    else x1
+  | _ => x1
+
+/-- MHD_CONNECTION_HEADERS_RECEIVED … HEADERS_PROCESSED: `parse_connection_headers`, first call of the
+    access handler (no early reply, no `100 Continue`) -/
+def afterHeaders (cfg : Cfg) (x : CR) (h : Headers) (rq : Rq) : CR :=
+  match cfg.frame h.buf rq with
+  | .stop => x
+  | .reject code => errorOut x (.reply code)
+  | .none => { x with phase := .reqDone h.buf h.rb rq }
+  | .len n =>
+    if n = 0 then { x with phase := .reqDone h.buf h.rb rq }
+    else { x with phase := .body ⟨h.buf, h.rb, rq, false, n, 0, 0, false, 1, true⟩ }
+  | .chunked => { x with phase := .body ⟨h.buf, h.rb, rq, true, 1, 0, 0, false, 1, true⟩ }
+
+/-- after the reply (taken as sent at once: nothing is received while a reply is sent):
+    `connection_switch_from_recv_to_send`, then `connection_reset`: with keep-alive the pool is reset,
+    the read-ahead is moved to the arena base and becomes the start of the next request -/
+def finishRequest (x : CR) (buf : Bytes) (rb : Nat) : CR × Bool :=
+  match op x.cm .shrinkRead with
+  | none => ({ x with phase := .refused 50 }, false)
+  | some c1 =>
+    match op c1 .resetConn with
+    | none => ({ x with phase := .refused 51 }, false)
+    | some c2 =>
+      let ahead := buf.extract rb buf.size
+      ({ x with cm := writeBack c2 ahead, phase := .reqLine (RL.init ahead 0) }, true)
 
 /-! ### the idle loop -/
 
-/-- the `while` loop of `MHD_connection_handle_idle` over the receiving states -/
-def idleStates (x : CR) : CR :=
+/-- the cases of the `switch` of `MHD_connection_handle_idle`, in the order in which one request passes them -/
+def stLine (x : CR) : CR := match x.phase with | .reqLine s => idleReqLine x s | _ => x
+def stHeaders (x : CR) : CR := match x.phase with | .headers hs fs => idleHeaders x hs fs | _ => x
+def stAfter (cfg : Cfg) (x : CR) : CR := match x.phase with | .headersDone h rq => afterHeaders cfg x h rq | _ => x
+def stBody (cfg : Cfg) (x : CR) : CR := match x.phase with | .body b => idleBody cfg x b | _ => x
+def stFooters (x : CR) : CR := match x.phase with | .footers s n => idleFooters x s n | _ => x
+def stDone (cfg : Cfg) (x : CR) : CR × Bool :=
   match x.phase with
-  | .reqLine s =>
-    let x1 := idleReqLine x s
-    match x1.phase with
-    | .headers hs fs => idleHeaders x1 hs fs
-    | _ => x1
-  | .headers hs fs => idleHeaders x hs fs
-  | _ => x
+  | .reqDone buf rb rq =>
+    if cfg.keepAlive buf rq then finishRequest x buf rb
+    else ({ x with phase := .error .closed }, false)
+  | _ => (x, false)
 
-/-- the connection waits for more data (MHD_EVENT_LOOP_INFO_READ) -/
+/-- one pass of the `while` loop of `MHD_connection_handle_idle` over the receiving states of one request;
+    the flag tells that the connection was reset for the next request (the loop goes on) -/
+def idlePass (cfg : Cfg) (x : CR) : CR × Bool :=
+  stDone cfg (stFooters (stBody cfg (stAfter cfg (stHeaders (stLine x)))))
+
+def idleStates (cfg : Cfg) : Nat → CR → CR
+  | 0, x => x
+  | n + 1, x =>
+    match idlePass cfg x with
+    | (x', true) => idleStates cfg n x'
+    | (x', false) => x'
+
+/-- the connection is in one of the receiving states -/
 def CR.reading (x : CR) : Bool :=
   match x.phase with
-  | .reqLine _ | .headers _ _ => true
+  | .reqLine _ | .headers _ _ | .body _ | .footers _ _ => true
   | _ => false
+
+/-- `has_unprocessed_upload_body_data_in_buffer` -/
+def hasUnprocessed (b : Body) (rbOff : Nat) : Bool :=
+  if !b.chunked then rbOff != 0
+  else if b.off == b.cur then false
+  else rbOff != 0
+
+/-- `MHD_connection_update_event_loop_info`, case BODY_RECEIVING: is MHD_EVENT_LOOP_INFO_READ set? -/
+def bodyWantsRead (b : Body) (rbOff : Nat) : Bool :=
+  if b.processed && hasUnprocessed b rbOff then
+    if !b.chunked then !decide (b.remaining ≥ rbOff) else true
+  else true
+
+/-- the connection will read from the socket (MHD_EVENT_LOOP_INFO_READ) -/
+def CR.wantsRead (x : CR) : Bool :=
+  match x.phase with
+  | .reqLine _ | .headers _ _ | .footers _ _ => true
+  | .body b => b.evRead
+  | _ => false
+
+/-- the "do not grow more than necessary" rule of `check_and_grow_read_buffer_space` for the body -/
+def bodyGrowDesired (b : Body) (rbSize : Nat) : Bool :=
+  if !b.chunked then decide (b.remaining > rbSize)
+  else if b.cur = 0 then decide (Mhd.Gen.ConnMem.chunkHeaderReasonableLen > rbSize)
+  else decide (b.cur - b.off + 2 > rbSize)
+
+/-- the state-dependent part of "grow desired" -/
+def growRefine (x : CR) : Bool :=
+  match x.phase with
+  | .body b => bodyGrowDesired b x.cm.rbSize
+  | _ => true
+
+/-- the mandatory grow failed: "The application is handling processing cycles. The data could be
+    processed later." (body data waiting for the application), otherwise the no-space error reply -/
+def noSpaceOut (x : CR) : CR :=
+  match x.phase with
+  | .body b =>
+    if hasUnprocessed b x.cm.rbOff then { x with phase := .body { b with evRead := false } }
+    else errorOut x .noSpace
+  | _ => errorOut x .noSpace
 
 /-- `check_and_grow_read_buffer_space` (called by `MHD_connection_update_event_loop_info`
     when the next thing to do is reading) -/
 def checkGrow (x : CR) : CR :=
-  if !x.reading then x else
+  if !x.wantsRead then x else
   let required := x.cm.rbOff == x.cm.rbSize
-  let desired := required || decide (x.cm.rbOff + x.cm.inc > x.cm.rbSize)
+  let desired := required || (decide (x.cm.rbOff + x.cm.inc > x.cm.rbSize) && growRefine x)
   if !desired then x else
   match step x.cm (.grow required) with
   | (_, .badOp) => { x with phase := .refused 30 }
   | (c, .bool true) => { x with cm := c }
-  | (c, _) => if !required then { x with cm := c } else errorOut { x with cm := c } .noSpace
+  | (c, _) => if !required then { x with cm := c } else noSpaceOut { x with cm := c }
+
+/-- `MHD_connection_update_event_loop_info` -/
+def updateEv (x : CR) : CR :=
+  match x.phase with
+  | .body b => checkGrow { x with phase := .body { b with evRead := bodyWantsRead b x.cm.rbOff } }
+  | _ => checkGrow x
 
 /-- `MHD_connection_handle_idle` -/
-def idle (x : CR) : CR := checkGrow (idleStates x)
+def idle (cfg : Cfg) (x : CR) : CR := updateEv (idleStates cfg (x.cm.rbOff + 2) x)
 
 /-! ### feeding client bytes -/
 
-/-- the bytes of one chunk: as long as the connection is reading, `handle_read` takes what
-    fits into the free part of the window, `handle_idle` runs, the rest stays in the socket
-    for the next round -/
-def feedFuel : Nat → CR → List UInt8 → CR
+/-- the bytes of one chunk: as long as the connection wants to read, `handle_read` takes what fits into
+    the free part of the window and `handle_idle` runs, the rest stays in the socket for the next round;
+    while only processing is pending (the application has not taken the upload data yet) `handle_idle`
+    runs without reading. -/
+def feedFuel (cfg : Cfg) : Nat → CR → List UInt8 → CR
   | 0, x, _ => x
   | n + 1, x, bs =>
-    if bs.isEmpty || !x.reading || x.space == 0 then x
-    else
+    if !x.reading || bs.isEmpty then x
+    else if x.wantsRead && x.space != 0 then
       let k := min bs.length x.space
-      feedFuel n (idle (recvBytes x (bs.take k))) (bs.drop k)
+      feedFuel cfg n (idle cfg (recvBytes x (bs.take k))) (bs.drop k)
+    else feedFuel cfg n (idle cfg x) bs
 
-def feed (x : CR) (chunk : List UInt8) : CR := feedFuel (chunk.length + 1) x chunk
+/-- one chunk; the empty chunk is one round of `handle_idle` without data -/
+def feed (cfg : Cfg) (x : CR) (chunk : List UInt8) : CR :=
+  if chunk.isEmpty then (if x.reading then idle cfg x else x) else feedFuel cfg (chunk.length + 1) x chunk
 
-def run (x : CR) (chunks : List (List UInt8)) : CR := chunks.foldl feed x
+def run (cfg : Cfg) (x : CR) (chunks : List (List UInt8)) : CR := chunks.foldl (feed cfg) x
 
 end Mhd.ConnRead
